@@ -1301,6 +1301,233 @@ def fold_tuples(fn: ast.AST) -> int:
     return count
 
 
+# ------------------------------------------------------------------------------------------------ control-flow normal form
+def _terminal(stmts: List[ast.stmt]) -> bool:
+    """the block cannot fall through"""
+    if not stmts:
+        return False
+    last = stmts[-1]
+    if isinstance(last, (ast.Return, ast.Raise, ast.Continue, ast.Break)):
+        return True
+    if isinstance(last, ast.If):
+        return bool(last.orelse) and _terminal(last.body) and _terminal(last.orelse)
+    return False
+
+
+def _pure_name(e: ast.AST) -> bool:
+    return isinstance(e, ast.Name)
+
+
+def control_flow_normal_form(fn: ast.AST) -> int:
+    """Equivalent spellings of one decision are brought to one form (all steps preserve behaviour):
+    conditional expressions that are the whole value of a return / yield / assignment become if statements; a `return v`
+    that follows an if / elif chain is moved into its branches, and `v = e; return v` becomes `return e`;
+    `if not v: return d` + `return v` becomes `return v or d`, `if not v: v = d` becomes `v = v or d`;
+    a for/else whose loop only leaves by `break` and whose continuation is terminal gets the continuation at the breaks;
+    `for x in xs: if c: break` + `else:` becomes `if not any(c for x in xs):`; a flag loop becomes `flag = any([..])`."""
+    total = 0
+    for _ in range(12):
+        changed = 0
+        for blk in list(_blocks(fn)):
+            i = 0
+            while i < len(blk):
+                st = blk[i]
+                nxt = blk[i + 1] if i + 1 < len(blk) else None
+                # N1 conditional expression as the whole value
+                if isinstance(st, ast.Return) and isinstance(st.value, ast.IfExp):
+                    v = st.value
+                    blk[i] = ast.copy_location(ast.If(test=v.test, body=[ast.copy_location(ast.Return(value=v.body), st)],
+                                                      orelse=[ast.copy_location(ast.Return(value=v.orelse), st)]), st)
+                    changed += 1
+                    continue
+                if isinstance(st, ast.Expr) and isinstance(st.value, ast.Yield) and isinstance(st.value.value, ast.IfExp):
+                    v = st.value.value
+                    blk[i] = ast.copy_location(ast.If(test=v.test, body=[ast.copy_location(ast.Expr(value=ast.Yield(value=v.body)), st)],
+                                                      orelse=[ast.copy_location(ast.Expr(value=ast.Yield(value=v.orelse)), st)]), st)
+                    changed += 1
+                    continue
+                if isinstance(st, ast.Assign) and len(st.targets) == 1 and isinstance(st.value, ast.IfExp) and isinstance(st.targets[0], (ast.Name, ast.Attribute)):
+                    v = st.value
+                    blk[i] = ast.copy_location(ast.If(test=v.test, body=[ast.copy_location(ast.Assign(targets=[copy.deepcopy(st.targets[0])], value=v.body), st)],
+                                                      orelse=[ast.copy_location(ast.Assign(targets=[copy.deepcopy(st.targets[0])], value=v.orelse), st)]), st)
+                    changed += 1
+                    continue
+                # N3 `v = e; return v`
+                if isinstance(st, ast.Assign) and len(st.targets) == 1 and _pure_name(st.targets[0]) and isinstance(nxt, ast.Return) \
+                        and _pure_name(nxt.value) and nxt.value.id == st.targets[0].id and not isinstance(st.value, (ast.Yield, ast.YieldFrom, ast.Await)):
+                    blk[i:i + 2] = [ast.copy_location(ast.Return(value=st.value), st)]
+                    changed += 1
+                    continue
+                # N4 `if not v: return d` ; `return v`   and   `if not v: v = d`
+                if isinstance(st, ast.If) and not st.orelse and len(st.body) == 1 and isinstance(st.test, ast.UnaryOp) and isinstance(st.test.op, ast.Not) \
+                        and _pure_name(st.test.operand):
+                    vname = st.test.operand.id
+                    b0 = st.body[0]
+                    if isinstance(b0, ast.Return) and b0.value is not None and isinstance(nxt, ast.Return) and _pure_name(nxt.value) and nxt.value.id == vname:
+                        blk[i:i + 2] = [ast.copy_location(ast.Return(value=ast.BoolOp(op=ast.Or(), values=[ast.Name(id=vname, ctx=ast.Load()), b0.value])), st)]
+                        changed += 1
+                        continue
+                    if isinstance(b0, ast.Assign) and len(b0.targets) == 1 and _pure_name(b0.targets[0]) and b0.targets[0].id == vname:
+                        blk[i] = ast.copy_location(ast.Assign(targets=[ast.Name(id=vname, ctx=ast.Store())],
+                                                              value=ast.BoolOp(op=ast.Or(), values=[ast.Name(id=vname, ctx=ast.Load()), b0.value])), st)
+                        changed += 1
+                        continue
+                # `if v: return v else: return d`
+                if isinstance(st, ast.If) and _pure_name(st.test) and len(st.body) == 1 and len(st.orelse) == 1 and isinstance(st.body[0], ast.Return) \
+                        and isinstance(st.orelse[0], ast.Return) and _pure_name(st.body[0].value) and st.body[0].value.id == st.test.id \
+                        and st.orelse[0].value is not None:
+                    blk[i] = ast.copy_location(ast.Return(value=ast.BoolOp(op=ast.Or(), values=[ast.Name(id=st.test.id, ctx=ast.Load()), st.orelse[0].value])), st)
+                    changed += 1
+                    continue
+                # N9 `if v: T = v else: T = d`  ->  `T = v or d`
+                if isinstance(st, ast.If) and _pure_name(st.test) and len(st.body) == 1 and len(st.orelse) == 1 and isinstance(st.body[0], ast.Assign) \
+                        and isinstance(st.orelse[0], ast.Assign) and len(st.body[0].targets) == 1 and len(st.orelse[0].targets) == 1 \
+                        and norm(st.body[0].targets[0]) == norm(st.orelse[0].targets[0]) and _pure_name(st.body[0].value) \
+                        and st.body[0].value.id == st.test.id:
+                    blk[i] = ast.copy_location(ast.Assign(targets=st.body[0].targets, value=ast.BoolOp(op=ast.Or(), values=[
+                        ast.Name(id=st.test.id, ctx=ast.Load()), st.orelse[0].value])), st)
+                    changed += 1
+                    continue
+                # N2 a return after an if chain goes into the branches
+                if isinstance(st, ast.If) and isinstance(nxt, ast.Return) and i + 2 == len(blk) and not _terminal([st]):
+                    def sink(node: ast.If):
+                        if not _terminal(node.body):
+                            node.body.append(copy.deepcopy(nxt))
+                        if len(node.orelse) == 1 and isinstance(node.orelse[0], ast.If):
+                            sink(node.orelse[0])
+                        elif not node.orelse:
+                            node.orelse = [copy.deepcopy(nxt)]
+                        elif not _terminal(node.orelse):
+                            node.orelse.append(copy.deepcopy(nxt))
+                    if _stmt_count_block([st]) <= 40:
+                        sink(st)
+                        del blk[i + 1]
+                        changed += 1
+                        continue
+                # N8 `if c: t = a else: t = b` ; `<use of t, once>`  ->  the use goes into both branches
+                if isinstance(st, ast.If) and st.orelse and isinstance(nxt, (ast.Expr, ast.Return, ast.Assign)) and st.body and \
+                        isinstance(st.body[-1], ast.Assign) and isinstance(st.orelse[-1], ast.Assign) and len(st.orelse) >= 1 \
+                        and not (len(st.orelse) == 1 and isinstance(st.orelse[0], ast.If)):
+                    a_, b_ = st.body[-1], st.orelse[-1]
+                    if len(a_.targets) == 1 and len(b_.targets) == 1 and _pure_name(a_.targets[0]) and _pure_name(b_.targets[0]) \
+                            and a_.targets[0].id == b_.targets[0].id:
+                        tname = a_.targets[0].id
+                        loads = [x for x in ast.walk(fn) if isinstance(x, ast.Name) and x.id == tname and isinstance(x.ctx, ast.Load)]
+                        stores = [x for x in ast.walk(fn) if isinstance(x, ast.Name) and x.id == tname and isinstance(x.ctx, ast.Store)]
+                        uses = [x for e_ in _stmt_exprs(nxt) for x in _safe_names(e_) if x.id == tname]
+                        if len(loads) == 1 and len(uses) == 1 and len(stores) == 2 and nxt.value is not None:
+                            for branch, asg in ((st.body, a_), (st.orelse, b_)):
+                                moved = copy.deepcopy(nxt)
+                                u = [x for e_ in _stmt_exprs(moved) for x in _safe_names(e_) if x.id == tname][0]
+                                _Replace(u, asg.value).visit(moved)
+                                branch[-1] = ast.copy_location(moved, asg)
+                            del blk[i + 1]
+                            changed += 1
+                            continue
+                # N5 for/else: the loop only leaves by break, what follows is terminal -> it goes to the breaks
+                if isinstance(st, ast.For) and st.orelse and _terminal(st.orelse) and i + 1 < len(blk):
+                    rest = blk[i + 1:]
+                    brks = [b for b in _own_breaks_list(st.body)]
+                    if _terminal(rest) and brks and len(rest) <= 4 and not any(isinstance(x, (ast.Break, ast.Continue)) for r_ in rest for x in ast.walk(r_)):
+                        if _replace_breaks(st.body, rest):
+                            orelse = st.orelse
+                            st.orelse = []
+                            blk[i + 1:] = orelse
+                            changed += 1
+                            continue
+                # N7a `for x in xs: if c: break` + else
+                if isinstance(st, ast.For) and st.orelse and len(st.body) == 1 and isinstance(st.body[0], ast.If) and not st.body[0].orelse \
+                        and len(st.body[0].body) == 1 and isinstance(st.body[0].body[0], ast.Break):
+                    gen = ast.GeneratorExp(elt=st.body[0].test, generators=[ast.comprehension(target=st.target, iter=st.iter, ifs=[], is_async=0)])
+                    test = ast.UnaryOp(op=ast.Not(), operand=ast.Call(func=ast.Name(id="any", ctx=ast.Load()), args=[gen], keywords=[]))
+                    blk[i] = ast.copy_location(ast.If(test=test, body=st.orelse, orelse=[]), st)
+                    changed += 1
+                    continue
+                # N7c `for x in xs: if c: BODY; break` + else: ELSE  (BODY does not read x)  ->  `if any(c for x in xs): BODY else: ELSE`
+                if isinstance(st, ast.For) and st.orelse and len(st.body) == 1 and isinstance(st.body[0], ast.If) and not st.body[0].orelse \
+                        and len(st.body[0].body) >= 2 and isinstance(st.body[0].body[-1], ast.Break):
+                    inner = st.body[0].body[:-1]
+                    tnames = {x.id for x in ast.walk(st.target) if isinstance(x, ast.Name)}
+                    in_loop = {id(x) for x in ast.walk(st.body[0].test)} | {id(x) for x in ast.walk(st.target)}
+                    reads_elsewhere = any(isinstance(x, ast.Name) and x.id in tnames and id(x) not in in_loop for x in ast.walk(fn))
+                    if not reads_elsewhere and not any(isinstance(x, (ast.Break, ast.Continue)) for y in inner for x in ast.walk(y)):
+                        gen = ast.GeneratorExp(elt=st.body[0].test, generators=[ast.comprehension(target=st.target, iter=st.iter, ifs=[], is_async=0)])
+                        test = ast.Call(func=ast.Name(id="any", ctx=ast.Load()), args=[gen], keywords=[])
+                        blk[i] = ast.copy_location(ast.If(test=test, body=inner, orelse=st.orelse), st)
+                        changed += 1
+                        continue
+                # N7b flag loop: `f = False; for x in xs: if c: f = True`
+                if isinstance(st, ast.Assign) and len(st.targets) == 1 and _pure_name(st.targets[0]) and isinstance(st.value, ast.Constant) \
+                        and st.value.value is False and isinstance(nxt, ast.For) and not nxt.orelse and len(nxt.body) == 1 \
+                        and isinstance(nxt.body[0], ast.If) and not nxt.body[0].orelse and len(nxt.body[0].body) == 1:
+                    a = nxt.body[0].body[0]
+                    if isinstance(a, ast.Assign) and len(a.targets) == 1 and _pure_name(a.targets[0]) and a.targets[0].id == st.targets[0].id \
+                            and isinstance(a.value, ast.Constant) and a.value.value is True:
+                        lst = ast.ListComp(elt=nxt.body[0].test, generators=[ast.comprehension(target=nxt.target, iter=nxt.iter, ifs=[], is_async=0)])
+                        blk[i:i + 2] = [ast.copy_location(ast.Assign(targets=[st.targets[0]], value=ast.Call(func=ast.Name(id="any", ctx=ast.Load()),
+                                                                                                                args=[lst], keywords=[])), st)]
+                        changed += 1
+                        continue
+                i += 1
+        total += changed
+        if not changed:
+            break
+
+    class Flat(ast.NodeTransformer):
+        """`a or (b or c)` is `a or b or c`"""
+        def visit_BoolOp(self, n: ast.BoolOp):
+            self.generic_visit(n)
+            vals = []
+            for v in n.values:
+                if isinstance(v, ast.BoolOp) and type(v.op) is type(n.op):
+                    vals += v.values
+                else:
+                    vals.append(v)
+            n.values = vals
+            return n
+
+    if total:
+        Flat().visit(fn)
+    return total
+
+
+def _stmt_count_block(stmts) -> int:
+    return sum(1 for s in stmts for n in ast.walk(s) if isinstance(n, ast.stmt))
+
+
+def _own_breaks_list(stmts: List[ast.stmt]) -> List[ast.Break]:
+    out = []
+    for s in stmts:
+        out += list(_own_breaks(s))
+    return out
+
+
+def _replace_breaks(stmts: List[ast.stmt], rest: List[ast.stmt]) -> bool:
+    """every own-level `break` of the loop body -> a copy of ``rest``"""
+    done = False
+    i = 0
+    while i < len(stmts):
+        s = stmts[i]
+        if isinstance(s, ast.Break):
+            stmts[i:i + 1] = [copy.deepcopy(r) for r in rest]
+            i += len(rest)
+            done = True
+            continue
+        if isinstance(s, (ast.For, ast.While, ast.FunctionDef, ast.ClassDef)):
+            if isinstance(s, (ast.For, ast.While)) and _replace_breaks(s.orelse, rest):
+                done = True
+        else:
+            for fld in ("body", "orelse", "finalbody"):
+                sub = getattr(s, fld, None)
+                if isinstance(sub, list) and sub and isinstance(sub[0], ast.stmt) and _replace_breaks(sub, rest):
+                    done = True
+            for h in getattr(s, "handlers", []) or []:
+                if _replace_breaks(h.body, rest):
+                    done = True
+        i += 1
+    return done
+
+
 # ------------------------------------------------------------------------------------------------ literal indirections
 def fold_literal_indirections(fn: ast.AST) -> int:
     """``getattr(x, 'name')`` -> ``x.name``;  ``f(a, **{'k': v})`` -> ``f(a, k=v)``"""
@@ -1547,6 +1774,7 @@ def normalise(p: Program, vocab: Optional[Set[str]] = None) -> Tuple[Dict[str, a
     """-> ({relpath: transformed module tree}, report)"""
     inl = Inliner(p, vocab)
     n_unrolled = 0
+    n_cf = 0
     new_trees: Dict[str, ast.Module] = {}
     changed: Set[str] = set()
     # copies of the module trees, with a map from original function nodes to their copies
@@ -1585,6 +1813,10 @@ def normalise(p: Program, vocab: Optional[Set[str]] = None) -> Tuple[Dict[str, a
             if mark == (len(inl.log), fused, unrolled):
                 break
         n_unrolled += unrolled + fused
+        cf = control_flow_normal_form(tgt) if f.parent is None or True else 0
+        n_cf += cf
+        if cf:
+            changed.add(f.module.name)
         if len(inl.log) > before or unrolled or fused:
             _beta(tgt)
             fold_class_constants(p, f, tgt)
@@ -1629,8 +1861,8 @@ def normalise(p: Program, vocab: Optional[Set[str]] = None) -> Tuple[Dict[str, a
             n_unrolled += fused
             tree.body = holder.body
             changed.add(m.name)
-    if not inl.log and not n_unrolled:
-        return {}, {"inlined_calls": 0, "helpers": [], "removed": [], "unrolled_tables": 0}
+    if not inl.log and not n_unrolled and not n_cf:
+        return {}, {"inlined_calls": 0, "helpers": [], "removed": [], "unrolled_tables": 0, "control_flow_rewrites": 0}
     helpers = sorted({h for _, h in inl.log})
     # imports needed by cross-module inlining
     for mname, needs in inl.need_imports.items():
@@ -1678,5 +1910,6 @@ def normalise(p: Program, vocab: Optional[Set[str]] = None) -> Tuple[Dict[str, a
         ast.fix_missing_locations(tree)
         new_trees[p.modules[mname].relpath] = tree
     report = {"inlined_calls": len(inl.log), "helpers": helpers, "removed": removed, "unrolled_tables": n_unrolled,
+              "control_flow_rewrites": n_cf,
               "callers": sorted({c for c, _ in inl.log})}
     return new_trees, report
